@@ -747,7 +747,7 @@ class Engine:
                 ty = frame.fn.locals.get(l, "")
                 m = re.match(r"\{closure@([^}]*)\}$", ty.strip())
                 if m:       # zero-sized (non-capturing) closure: never assigned in MIR
-                    loc[l] = Closure(m.group(1), [], [])
+                    loc[l] = Closure(m.group(1), [], [], frame.tparams or None)
                 elif ty.strip() == "()":
                     loc[l] = unit()
                 else:
@@ -795,7 +795,7 @@ class Engine:
             ty = m.group(1).strip()
             mm = re.match(r"\{closure@([^}]*)\}", ty)
             if mm:
-                return Closure(mm.group(1), [], []), ty
+                return Closure(mm.group(1), [], [], (frame.tparams or None) if frame is not None else None), ty
             mm = re.match(r"(?:for<[^>]*> )?(?:unsafe )?(?:extern \"[^\"]*\" )?fn\(.*?\)(?: -> .*?)? \{(.*)\}$", ty, re.S)
             if mm:
                 return FnItem(mm.group(1)), "fn"
@@ -1065,7 +1065,7 @@ class Engine:
         if k == "tuple":
             return Agg("(tuple)", None, 0, [s.eval_operand(frame, o) for o in rv[1]])
         if k == "closure":
-            return Closure(rv[1], [s.eval_operand(frame, o) for _, o in rv[2]], [n for n, _ in rv[2]])
+            return Closure(rv[1], [s.eval_operand(frame, o) for _, o in rv[2]], [n for n, _ in rv[2]], frame.tparams or None)
         if k == "coroutine":
             import models
             co = models.Coroutine(rv[1], [s.eval_operand(frame, o) for _, o in rv[2]], [n for n, _ in rv[2]])
@@ -1457,7 +1457,7 @@ class Engine:
                 # rustc prints trimmed paths: a free function unique in its crate appears by its bare name
                 c = [x for x in s.by_short.get(segs[-1], []) if x.name == segs[-1] or x.name.endswith("::" + segs[-1])]
                 c = [x for x in c if "<impl" not in x.name]
-                if len(c) == 1 and (len(segs) == 1 or not s.is_std_path(segs)):
+                if len(c) == 1 and (len(segs) == 1 or segs[0] in ("tx3_tir", "tx3_cardano", "tx3_resolver", "tx3_lang", "crate")):
                     f = c[0]
         if f is not None:
             tp = None
@@ -1622,7 +1622,7 @@ class Engine:
             first = cref if cref is not None else ref_to_value(clo)
         else:
             first = clo
-        return s.call_fn(fn, [first] + list(args))
+        return s.call_fn(fn, [first] + list(args), clo.tparams)
 
 
 class _CallM:
